@@ -43,6 +43,8 @@ def device_message(m: dict) -> tuple[int, bytes]:
     if k == "raw":  # a frame with an explicit type id (id sweeps); the specification sees kind m["as"]
         return m["id"], PAYLOADS[m.get("pl", "empty")]
     if msg_id(k) is not None:  # any other message of the protocol, by its api.proto name
+        if "pb" in m:
+            return msg_id(k), pb(k, **m["pb"]).SerializeToString()
         return msg_id(k), PAYLOADS[m.get("pl", "empty")]
     raise ValueError(k)
 
